@@ -214,6 +214,59 @@ pub fn run(ctx: &mut Ctx) {
             Err(e) => ctx.violation("perturbed-voice-does-not-load", J::from(format!("{}", e))),
         }
     });
+    // a voice whose header switches GV off for a stream while the GV data is still in the file:
+    // that stream must ignore its GV weight and equal the plain ML solution
+    ctx.run_cases("gv-flag-off", 8, true, |ctx, rng, idx| {
+        let stream_name = if idx % 2 == 0 { "LF0" } else { "MCP" };
+        let stream = if idx % 2 == 0 { 1usize } else { 0usize };
+        let key = format!("USE_GV[{}]:1", stream_name);
+        let Some(pos) = env.bundled_bytes.windows(key.len()).position(|w| w == key.as_bytes()) else {
+            ctx.inconclusive("bundled header has no USE_GV line to switch off");
+            return;
+        };
+        let mut bytes = env.bundled_bytes.clone();
+        bytes[pos + key.len() - 1] = b'0';
+        let p = env.voice_file(&bytes);
+        let e = Engine::load(&[&p]);
+        env.remove(&p);
+        let base = match e {
+            Ok(e) => e,
+            Err(er) => {
+                ctx.violation("voice-with-gv-switched-off-does-not-load", J::from(format!("{}", er)));
+                return;
+            }
+        };
+        let labels = env.corpus.utterance(rng, 20, idx % 2);
+        let mut ref_run: Option<crate::synth::Run> = None;
+        for w in [1.0, 0.25, 2.0, 0.0] {
+            let mut e = base.clone();
+            e.condition.set_gv_weight(stream, w);
+            let Ok(run) = trajectories(&e, labels.clone()) else {
+                ctx.violation("synthesize-err", J::from("gv-flag-off"));
+                return;
+            };
+            if let Some(r0) = &ref_run {
+                if !bits_eq2(traj_of(r0, stream), traj_of(&run, stream)) {
+                    ctx.violation("stream-without-gv-depends-on-gv-weight", J::obj().set("voice", format!("bundled with USE_GV[{}]:0", stream_name)).set("gv_weight", w));
+                    return;
+                }
+            } else {
+                // equals the plain ML solution
+                let models = Models::new(&labels, &e.voices, e.condition.get_interporation_weight());
+                let mut ms = models.model_stream(stream);
+                let had_gv = ms.gv.is_some();
+                ms.gv = None;
+                let plain = MlpgAdjust::new(w, e.condition.get_msd_threshold(stream), ms).create(&run.durations);
+                if had_gv || !bits_eq2(&plain, traj_of(&run, stream)) {
+                    ctx.violation("stream-with-use-gv-0-still-uses-gv", J::obj().set("voice", format!("bundled with USE_GV[{}]:0", stream_name)).set("models_report_gv", had_gv));
+                    return;
+                }
+                ref_run = Some(run);
+            }
+        }
+        ctx.count("gv_flag_off_checks", 1.0);
+        ctx.nontrivial(mix(&[13, idx as u64]));
+    });
     let n = ctx.n(24, 1000);
     ctx.run_cases("silence-only", n, false, |ctx, rng, _| {
         silence_case(ctx, &env, rng, &bundled, "bundled");
